@@ -259,7 +259,13 @@ def writable_section(name, flags):
     """is an object in this section writable shared state at run time?"""
     if "T" in flags or name.startswith(".tbss") or name.startswith(".tdata"):
         return False        # thread-local: private to each thread
-    return "W" in flags     # .data .bss .data.rel* (and .data.rel.ro*, kept in: a store there is still a race)
+    if name.startswith(".data.rel.ro"):
+        # const-qualified (or proved never written by the compiler) data that merely needs load-time
+        # relocation; the same objects sit in .rodata in a non-PIC build and the linker maps them
+        # read-only after relocation (RELRO).  Treated like .rodata — except that analyse() puts an
+        # object of such a section back among the writable ones if a store instruction names it.
+        return False
+    return "W" in flags     # .data .bss .data.rel .data.rel.local COMMON
 
 
 def analyse(obj_paths, slots, allow_path):
@@ -441,6 +447,11 @@ def analyse(obj_paths, slots, allow_path):
                 src, dst = locate(o, ndx, addr), locate(o, ndx, int(m.group(1), 16))
                 if src is not dst:
                     add_edge(src, dst, "call")
+
+    # a store that names an object of a relocated-read-only section makes it writable state after all
+    for n in nodes:
+        if n["kind"] == "obj" and n["section"].startswith(".data.rel.ro") and n["id"] in stored:
+            n["writable"] = True
 
     # a global object's address is visible to the application and to every other object file
     for n in nodes:
